@@ -29,7 +29,15 @@ Definition caret_coords (anchors : list manchor) : list Qc :=
   flat_map (fun a => if has_prefix CARET (ma_name a) then [ma_x a]
                      else if has_prefix VCARET (ma_name a) then [ma_y a] else []) anchors.
 
-Definition expected_carets (g : mglyph) : list Z := map otRound (qc_sort_set (caret_coords (mg_anchors g))).
+(* the table builder stores each position once *)
+Fixpoint zdedup (l : list Z) : list Z :=
+  match l with
+  | x :: ((y :: _) as r) => if Z.eqb x y then zdedup r else x :: zdedup r
+  | _ => l
+  end.
+
+Definition expected_carets (g : mglyph) : list Z :=
+  zdedup (map otRound (qc_sort_set (caret_coords (mg_anchors g)))).
 
 (* ---- cursive attachment ---- *)
 Definition ENTRY : str := [101;110;116;114;121].              (* "entry" *)
